@@ -39,7 +39,7 @@ BOUNDS = (
     "estimator} x xy_bounds {none, 1.0, (0.05, None) [hit], (1.0, 0.05) [hit], (None, 0.05) [hit]} x column naming {x/y/flux, *_init, *_0, "
     "xcentroid/ycentroid + aperture flux} x one seeded row permutation; tolerances |x,y - truth| <= 1e-6, "
     "|flux/truth - 1| <= 1e-6, residual image <= 1e-6 * peak (the parameter tolerance propagated), "
-    "permuted/scaled runs 2e-6, IterativePSFPhotometry(maxiters=1) bitwise equal; npixfit/flags/ids/group "
+    "permuted/scaled runs 2e-6, *_err columns on perturbed data (amplitude 2e-3 peak, conditioned scenes only) permutation-covariant to 1e-3, IterativePSFPhotometry(maxiters=1) bitwise equal; npixfit/flags/ids/group "
     "columns exact.  Flag 2 is only asserted where unambiguous (set if the fitted centre is < -0.5 or > n; "
     "clear if inside [0, n-1]).")
 
@@ -455,7 +455,7 @@ def k_scene(c):
             out.append((False, 'call/exception', f'{desc}: rows permuted {perm} raised {type(exc).__name__}: {exc}', None))
     # parameter errors follow their source: on data with a small deterministic perturbation (so that the
     # errors are not ~0) the *_err columns of a permuted table are the permuted *_err columns
-    if perm and N > 1 and expect_recovery and c['bkgmode'] != 'estimator':
+    if perm and N > 1 and expect_recovery and c.get('conditioned') and c['bkgmode'] != 'estimator':
         try:
             jj, ii = np.mgrid[0:ny, 0:nx]
             pert = data + 2e-3 * peak * np.sin(1.7 * ii + 0.9 * jj * jj)
